@@ -180,6 +180,9 @@ def _position_call(t, depth=0):
     return None
 
 
+_in_rec = {}
+
+
 def implies_le(path, x, y, upto=None, strict=False, norm=None):
     """does the path establish x <= y (x < y when strict)? a reason, or None. Terms are compared after `norm`; a
     comparison a <= b on the path also discharges x <= y when y - x and b - a are the same affine form (both sides
@@ -195,6 +198,23 @@ def implies_le(path, x, y, upto=None, strict=False, norm=None):
         return "min() with the length"
     if A.is_int(sx) and sx[1] == 0 and not strict:
         return "zero"
+    # x <= min(p, q) when x <= p and x <= q; saturating_sub(a, b) <= y when a <= y
+    if sy[0] == "ret" and sy[1] == "min" and isinstance(sy[2], tuple) and len(sy[2]) == 2 and not _in_rec.get("d", 0) > 3:
+        _in_rec["d"] = _in_rec.get("d", 0) + 1
+        try:
+            rs = [implies_le(path, x, a_, upto, strict, norm) for a_ in sy[2]]
+        finally:
+            _in_rec["d"] -= 1
+        if all(rs):
+            return "below both operands of the min()"
+    if sx[0] == "ret" and sx[1] == "saturating_sub" and isinstance(sx[2], tuple) and len(sx[2]) == 2 and not _in_rec.get("d", 0) > 3:
+        _in_rec["d"] = _in_rec.get("d", 0) + 1
+        try:
+            r_ = implies_le(path, sx[2][0], y, upto, False, norm)
+        finally:
+            _in_rec["d"] -= 1
+        if r_ and not strict:
+            return "saturating_sub of a quantity that is below"
     # library fact: partition_point / binary_search over v return a position in 0..=len(v); one less than a non-zero
     # such position is an index of v (the subtraction itself is guarded by the overflow check)
     def _pp(t_):
